@@ -38,6 +38,7 @@ def main(argv=None):
     ap.add_argument("--shard", default=None)
     ap.add_argument("--state-out", default=None)
     ap.add_argument("--no-shards", action="store_true")
+    ap.add_argument("--scale", type=float, default=1.0)
     args = ap.parse_args(argv)
     if args.seed is None:
         try:
@@ -57,6 +58,7 @@ def main(argv=None):
     prop = args.prop.upper()
     mod = importlib.import_module(f"egverif.props.{prop.lower()}")
     ctx = common.Ctx(prop, args.tier, args.seed, LEVELS.get(prop, "exploration"))
+    ctx.scale = args.scale
 
     signal.signal(signal.SIGALRM, _watchdog)
     signal.alarm(WATCHDOG[args.tier])
@@ -64,6 +66,9 @@ def main(argv=None):
     if args.replay:
         with open(args.replay) as fp:
             rec = json.load(fp)
+        if isinstance(rec.get("case"), dict) and rec["case"].get("python_O") and not sys.flags.optimize:
+            # the witness was observed under `python -O`: replay it the same way
+            os.execv(sys.executable, [sys.executable, "-O", "-B", "-m", "egverif.cli"] + (argv if argv is not None else sys.argv[1:]))
         ctx.replay_mode = True
         mod.replay(ctx, rec["case"])
         code = ctx.finish("replay of one recorded case")
@@ -83,6 +88,8 @@ def main(argv=None):
 
             traceback.print_exc()
             return common.EXIT_INCONCLUSIVE
+        if sys.flags.optimize:
+            ctx.counters["evaluations_under_python_O"] = ctx.evaluations
         with open(args.state_out, "w") as fp:
             json.dump(ctx.dump_state(), fp, default=repr)
         return 0
@@ -96,6 +103,8 @@ def main(argv=None):
             with reach.Reach(prop) as rc:
                 mod.run(ctx)
             ctx.reach = rc.summary()
+            if not sys.flags.optimize and os.environ.get("EGVERIF_OPT_PASS", "1") != "0":
+                run_optimized_companion(ctx, prop, args)
     except Exception:  # noqa: BLE001 - a crash of the harness is never a verdict
         import traceback
 
@@ -105,6 +114,44 @@ def main(argv=None):
     return ctx.finish(mod.RULE, mod.floors(ctx))
 
 
+def run_optimized_companion(ctx, prop, args):
+    """
+    The interpreter is part of the environment: `python -O` / PYTHONOPTIMIZE strips assert statements and
+    `if __debug__:` blocks, in the library and in what it calls.  A reduced share of the same workload (a third
+    of the enumerated part, 30% of the random part) is therefore repeated in a child running with -O and merged.
+    """
+    tmpdir = tempfile.mkdtemp(prefix="egverif_")
+    out = os.path.join(tmpdir, "opt.json")
+    log = os.path.join(tmpdir, "opt.log")
+    try:
+        with open(log, "w") as lf:
+            try:
+                p = subprocess.run([sys.executable, "-O", "-B", "-m", "egverif.cli", prop, "--tier", args.tier,
+                                    "--seed", str(args.seed), "--shard", "1/3", "--scale", "0.3", "--state-out", out],
+                                   stdout=lf, stderr=subprocess.STDOUT, timeout=WATCHDOG[args.tier] // 2)
+                rc = p.returncode
+            except subprocess.TimeoutExpired:
+                rc = -1
+        if rc != 0 or not os.path.exists(out):
+            ctx.counters["__shards_failed"] = ctx.counters.get("__shards_failed", 0) + 1
+            ctx.extra["python_O_companion"] = "failed"
+            try:
+                sys.stderr.write(open(log).read()[-2000:])
+            except OSError:
+                pass
+            return
+        with open(out) as fp:
+            st = json.load(fp)
+        st["reach"] = {}
+        ctx.merge_state(st)
+        ctx.extra["python_O_companion"] = {"share": "shard 1/3 of the enumerated part, 30% of the random part",
+                                           "evaluations": st["evaluations"]}
+    finally:
+        for f in os.listdir(tmpdir):
+            os.unlink(os.path.join(tmpdir, f))
+        os.rmdir(tmpdir)
+
+
 def run_sharded(ctx, prop, args):
     tmpdir = tempfile.mkdtemp(prefix="egverif_")
     procs = []
@@ -112,8 +159,9 @@ def run_sharded(ctx, prop, args):
     for k in range(NSHARDS):
         out = os.path.join(tmpdir, f"s{k}.json")
         log = open(os.path.join(tmpdir, f"s{k}.log"), "w")
+        # every fourth shard runs under `python -O` (assert statements / __debug__ blocks stripped)
         p = subprocess.Popen(
-            [sys.executable, "-B", "-m", "egverif.cli", prop, "--tier", "thorough",
+            [sys.executable] + (["-O"] if k % 4 == 3 else []) + ["-B", "-m", "egverif.cli", prop, "--tier", "thorough",
              "--seed", str(args.seed), "--shard", f"{k}/{NSHARDS}", "--state-out", out],
             env=env, stdout=log, stderr=subprocess.STDOUT,
         )
